@@ -127,6 +127,13 @@ func nodeString(sb *strings.Builder, n *idr.Node, depth int) {
 		sb.WriteString("<deep>")
 		return
 	}
+	if sb.Len() > 8<<20 {
+		// a cyclic or runaway structure: the rendering stays finite (and differs from any sound tree's)
+		if !strings.HasSuffix(sb.String()[sb.Len()-16:], "<RUNAWAY>") {
+			sb.WriteString("<RUNAWAY>")
+		}
+		return
+	}
 	switch n.Type {
 	case idr.DocumentNode:
 		sb.WriteString("D")
@@ -153,7 +160,7 @@ func nodeString(sb *strings.Builder, n *idr.Node, depth int) {
 	}
 	if n.FirstChild != nil {
 		sb.WriteString("[")
-		for c := n.FirstChild; c != nil; c = c.NextSibling {
+		for c := n.FirstChild; c != nil && sb.Len() <= 8<<20; c = c.NextSibling {
 			nodeString(sb, c, depth+1)
 		}
 		sb.WriteString("]")
